@@ -1078,23 +1078,33 @@ LOOP:
 				continue LOOP
 			}
 			if len(l.src) > 1 && l.src[1] == '*' {
-				l.src = l.src[2:]
-				p := bytes.Index(l.src, []byte("*/"))
+				p := bytes.Index(l.src[2:], []byte("*/"))
 				if p == -1 {
 					return l.errorf("comment not terminated")
 				}
-				nl := bytes.IndexAny(l.src[:p], "\n"+string(BOM))
-				if nl >= 0 && l.src[nl] != '\n' {
-					return l.errorf(bomErrorMsg)
-				}
-				l.src = l.src[p+2:]
-				if nl >= 0 {
-					if endLineAsSemicolon {
-						l.emit(tokenSemicolon, 0)
-						endLineAsSemicolon = false
+				// Compute the line and the column after the comment.
+				comment := l.src[:p+4]
+				line, column := l.line, l.column
+				for i := 0; i < len(comment); {
+					r, s := utf8.DecodeRune(comment[i:])
+					switch r {
+					case BOM:
+						l.line, l.column, l.src = line, column, l.src[i:]
+						return l.errorf(bomErrorMsg)
+					case '\n':
+						line++
+						column = 1
+					default:
+						column++
 					}
-					l.newline()
+					i += s
 				}
+				if line > l.line && endLineAsSemicolon {
+					l.emit(tokenSemicolon, 0)
+					endLineAsSemicolon = false
+				}
+				l.line, l.column = line, column
+				l.src = l.src[len(comment):]
 				continue LOOP
 			}
 			if len(l.src) > 1 && l.src[1] == '=' {
